@@ -60,6 +60,15 @@ CHECKS={
    text='A lock-free reader process (list --json --all, show --json; thorough also --epics / --ready) runs against every writer of the C02 alphabet plus a >4 KiB multi-event append, on a small and a 140 KB store (multi-read scans), and against two writers at once; every interleaving of the reader\'s hooked steps (path stat, open, tail probe, each read chunk) with the writer\'s steps (lock, each appended line, temp write/flush/sync, rename) up to 2 (thorough 3) preemptions. Oracle: the reader exits 0 and its stdout equals the same command\'s stdout on one of the store versions that existed between its invocation and its exit (the project directory is snapshotted after every scheduler step; a moment without a log does not count).',
    note='A single write(2)/rename(2) is indivisible to the reader (page-granular tearing of one write is not modelled). Code between two hook points is atomic.',
    technique='stateless model checking (iterative preemption bounding) of real processes + version-set oracle'),
+
+ 'C03': dict(engine='CRASH', level='model_checking', design='3/C03',
+   text='Explicit-state search over crash states produced by the real production binary: from 3 pre-states (incl. legacy file name) every command of a 14-command menu is killed with SIGKILL (strace fault injection) on entry to every store-mutating system call it makes, and every log write is also cut short at byte offsets {1,2,L/2,L-2,L-1} (thorough: every offset). Every distinct state must be readable, show exactly its whole events, keep every earlier event unchanged and in order; on damaged states (torn tail, leftover temp file) every menu command must behave exactly as on the clean store holding the same whole events and leave the store readable; damaged states are crashed again (depth 2, thorough 3).',
+   note='Process death only (page cache survives SIGKILL): no power-loss or fsync-reordering model. A torn write is a byte prefix of one write(2). Kill points are verified from each injected run\'s own trace; strace counts per thread, give-ups are reported.',
+   technique='fault enumeration + explicit-state search: SIGKILL at every store syscall boundary, torn-write enumeration, recovery chains'),
+ 'C04': dict(engine='CRASH', level='model_checking', design='3/C04',
+   text='Every multi-event command instance (claim x3, all 26 multi-field subsets of set{title,body,epic,claim,state} + flag / --agent variants, prune, plan x2, compact, 6 composite commands, 2 single-event controls) x 3 pre-states: the production binary is killed on entry to EVERY store-mutating system call (reference strace run locates them; each injected run is verified from its own trace). Oracle: the normalised observable state after the kill is exactly the state before the command or exactly the state after an uninterrupted run. Composite commands (several lock sections) are known findings K1-K3 matched by call site.',
+   note='Points between two non-mutating system calls leave the same files as the next mutating boundary. Process death only.',
+   technique='fault enumeration: SIGKILL at every store-mutating syscall boundary of the production binary'),
 }
 NA_REASON='check not built yet (work in progress; design in DESIGN.md)'
 m={"version":1,
